@@ -65,7 +65,7 @@ ENGINES = {
     "compsim": dict(
         sources=["kernel/simheap.cpp", "kernel/engine.cpp", "wrap/wrap.cpp", "compsim/main.cpp",
                  "compsim/gen.cpp", "compsim/comps_a.cpp", "compsim/comps_b.cpp", "compsim/wrap.cpp",
-                 "compsim/smart.cpp", "compsim/joint.cpp", "compsim/cont.cpp", "compsim/cont_0.cpp",
+                 "compsim/smart.cpp", "compsim/joint.cpp", "compsim/deep.cpp", "compsim/cont.cpp", "compsim/cont_0.cpp",
                  "compsim/cont_1.cpp", "compsim/cont_2.cpp", "compsim/cont_3.cpp", "compsim/cont_4.cpp",
                  "compsim/cont_5.cpp", "compsim/cont_6.cpp", "compsim/cont_7.cpp"],
         wraps=WRAPS, libs=[], nodesizes=True),
